@@ -15,7 +15,9 @@ import (
 	"go/token"
 	"go/types"
 	"math/big"
+	"regexp"
 	"sort"
+	"strconv"
 	"strings"
 	"unicode/utf8"
 
@@ -340,6 +342,7 @@ type analyzer struct {
 	noInline   map[*ssa.Function]bool
 	stack      []*ssa.Function
 	allowRecursion bool // bounded by maxDepth (structural recursion over a finite chain)
+	regex      map[*ssa.Global]string // package-level regexps with a constant pattern (load gives "regexp:<pattern>")
 }
 
 func newAnalyzer() *analyzer {
@@ -892,6 +895,9 @@ func (an *analyzer) load(x *ssa.UnOp, a aval, mem map[*ssa.Alloc][]aval, escapes
 		if isErrorType(g.Type().(*types.Pointer).Elem()) {
 			return nonnil(g.Pkg.Pkg.Name() + "." + g.Name())
 		}
+		if pat, ok := an.regex[g]; ok {
+			return nonnil("regexp:" + pat)
+		}
 		return aval{k: kTop, notes: []string{"global:" + g.Pkg.Pkg.Name() + "." + g.Name()}}
 	}
 	return top
@@ -1059,6 +1065,14 @@ func convertConst(a aval, to types.Type) aval {
 		if a.c.Kind() == constant.String {
 			return aval{k: kConst, c: a.c}
 		}
+		if a.c.Kind() == constant.Int {
+			// string(rune): out-of-range code points become U+FFFD
+			v, exact := constant.Int64Val(a.c)
+			if !exact || v < 0 || v > 0x10FFFF {
+				v = 0xFFFD
+			}
+			return cStr(string(rune(v)))
+		}
 	case b.Info()&types.IsBoolean != 0:
 		if a.c.Kind() == constant.Bool {
 			return aval{k: kConst, c: a.c}
@@ -1141,6 +1155,9 @@ func (an *analyzer) call(x *ssa.Call, get func(ssa.Value) aval, depth int, res *
 			return v
 		}
 	}
+	if v, ok := an.funcArgModel(sc, args, depth, res, x); ok {
+		return v
+	}
 	if v, ok := libModel(sc, c, args, x); ok {
 		return v
 	}
@@ -1213,12 +1230,16 @@ func libModel(sc *ssa.Function, c *ssa.CallCommon, args []aval, site *ssa.Call) 
 			if args[1].k != kSlice && args[1].k != kNil {
 				return nonnil("?"), true
 			}
-			for _, e := range args[1].elems {
+			verbs := errorfVerbs(args[0])
+			for i, e := range args[1].elems {
 				if e.k == kBot {
 					return bot, true // varargs not yet propagated
 				}
 				if e.dyn != nil && !isErrorLike(e.dyn) {
 					continue
+				}
+				if verbs != nil && (i >= len(verbs) || verbs[i] != 'w') {
+					continue // formatted with %v/%s: the text is kept, the error is not wrapped
 				}
 				if e.k == kTop || (e.k == kNonNil && len(e.notes) == 0 && e.dyn == nil) {
 					notes = append(notes, "?")
@@ -1315,6 +1336,54 @@ func libModel(sc *ssa.Function, c *ssa.CallCommon, args []aval, site *ssa.Call) 
 			return cStr(strings.TrimSuffix(a, b)), true
 		}
 		return top, true
+	case "fmt.Sprintf":
+		if len(args) == 2 && args[0].k == kConst && args[0].c.Kind() == constant.String && (args[1].k == kNil || (args[1].k == kSlice && (args[1].elems != nil || args[1].n == 0))) {
+			var goArgs []any
+			for _, e := range args[1].elems {
+				if e.k == kBot {
+					return bot, true
+				}
+				if e.k != kConst {
+					return top, true
+				}
+				switch e.c.Kind() {
+				case constant.Int:
+					v, exact := constant.Int64Val(e.c)
+					if !exact {
+						return top, true
+					}
+					goArgs = append(goArgs, v)
+				case constant.String:
+					goArgs = append(goArgs, constant.StringVal(e.c))
+				case constant.Bool:
+					goArgs = append(goArgs, constant.BoolVal(e.c))
+				default:
+					return top, true
+				}
+			}
+			return cStr(fmt.Sprintf(constant.StringVal(args[0].c), goArgs...)), true
+		}
+		return top, true
+	case "strconv.ParseUint", "strconv.ParseInt":
+		if len(args) == 3 && args[0].k == kConst && args[0].c.Kind() == constant.String {
+			base, ok1 := constInt(args[1])
+			bits, ok2 := constInt(args[2])
+			if ok1 && ok2 {
+				if full == "strconv.ParseUint" {
+					v, err := strconv.ParseUint(constant.StringVal(args[0].c), int(base), int(bits))
+					if err != nil {
+						return aval{k: kTuple, tup: []aval{{k: kConst, c: constant.MakeUint64(v)}, nonnil("strconv")}}, true
+					}
+					return aval{k: kTuple, tup: []aval{{k: kConst, c: constant.MakeUint64(v)}, {k: kNil}}}, true
+				}
+				v, err := strconv.ParseInt(constant.StringVal(args[0].c), int(base), int(bits))
+				if err != nil {
+					return aval{k: kTuple, tup: []aval{cInt(v), nonnil("strconv")}}, true
+				}
+				return aval{k: kTuple, tup: []aval{cInt(v), {k: kNil}}}, true
+			}
+		}
+		return aval{k: kTuple, tup: []aval{top, top}}, true
 	case "strings.ToLower", "strings.ToUpper":
 		if len(args) == 1 && args[0].k == kConst && args[0].c.Kind() == constant.String {
 			if full == "strings.ToLower" {
@@ -1468,6 +1537,10 @@ func (r *result) decidedEntry(b *ssa.BasicBlock, depth int) bool {
 // intBits: width and signedness of a basic integer type (int/uint/uintptr are
 // taken as 64-bit; the 386 pass only changes untyped-constant folding done by
 // the compiler, not these run-time widths for the fixed-width types we care about).
+// wordBits is the size of int/uint/uintptr of the architecture the program was
+// loaded for (set by Load).
+var wordBits = 64
+
 func intBits(t types.Type) (bits int, signed bool, ok bool) {
 	b, isB := t.Underlying().(*types.Basic)
 	if !isB || b.Info()&types.IsInteger == 0 {
@@ -1480,16 +1553,20 @@ func intBits(t types.Type) (bits int, signed bool, ok bool) {
 		return 16, true, true
 	case types.Int32:
 		return 32, true, true
-	case types.Int64, types.Int:
+	case types.Int64:
 		return 64, true, true
+	case types.Int:
+		return wordBits, true, true
 	case types.Uint8:
 		return 8, false, true
 	case types.Uint16:
 		return 16, false, true
 	case types.Uint32:
 		return 32, false, true
-	case types.Uint64, types.Uint, types.Uintptr:
+	case types.Uint64:
 		return 64, false, true
+	case types.Uint, types.Uintptr:
+		return wordBits, false, true
 	}
 	return 0, false, false
 }
@@ -1572,4 +1649,81 @@ func isRuneOrByteSlice(t types.Type) byte {
 		return 'b'
 	}
 	return 0
+}
+
+// funcArgModel: library functions that take a function argument, evaluated by
+// analysing the argument function on each constant it would be applied to.
+func (an *analyzer) funcArgModel(sc *ssa.Function, args []aval, depth int, res *result, site *ssa.Call) (aval, bool) {
+	switch sc.RelString(nil) {
+	case "(*regexp.Regexp).ReplaceAllStringFunc":
+		if len(args) != 3 {
+			return aval{}, false
+		}
+		for _, a := range args {
+			if a.k == kBot {
+				return bot, true
+			}
+		}
+		pat := ""
+		for _, n := range args[0].notes {
+			if strings.HasPrefix(n, "regexp:") {
+				pat = strings.TrimPrefix(n, "regexp:")
+			}
+		}
+		if pat == "" || args[1].k != kConst || args[1].c.Kind() != constant.String || args[2].fn == nil || len(args[2].fn.FreeVars) > 0 || depth >= an.maxDepth+2 {
+			return top, true
+		}
+		re, err := regexp.Compile(pat)
+		if err != nil {
+			return top, true
+		}
+		failed := false
+		out := re.ReplaceAllStringFunc(constant.StringVal(args[1].c), func(m string) string {
+			r := an.run(args[2].fn, []aval{cStr(m)}, nil, depth+1)
+			for _, h := range r.hazards {
+				res.hazards = append(res.hazards, hazard{site, h.leaf, "in " + short(args[2].fn) + ": " + h.what})
+			}
+			j := r.joinedReturn()
+			if j.k == kConst && j.c.Kind() == constant.String {
+				return constant.StringVal(j.c)
+			}
+			failed = true
+			return ""
+		})
+		if failed {
+			return top, true
+		}
+		return cStr(out), true
+	}
+	return aval{}, false
+}
+
+// errorfVerbs: the verb letter consuming each operand of a constant format
+// string; nil when the format is not constant or uses explicit argument indexes.
+func errorfVerbs(f aval) []byte {
+	if f.k != kConst || f.c.Kind() != constant.String {
+		return nil
+	}
+	s := constant.StringVal(f.c)
+	out := []byte{}
+	for i := 0; i < len(s); i++ {
+		if s[i] != '%' {
+			continue
+		}
+		i++
+		for i < len(s) && strings.IndexByte("+-# 0123456789.", s[i]) >= 0 {
+			i++
+		}
+		if i >= len(s) {
+			break
+		}
+		switch s[i] {
+		case '%':
+			continue
+		case '[', '*':
+			return nil
+		}
+		out = append(out, s[i])
+	}
+	return out
 }
